@@ -1,12 +1,12 @@
-\* all graphs: <= 2 model types out of 4 kinds, <= 2 generations, <= 2 nodes per (model, generation), <= 2 links
+\* a table-parameter model (2- and 3-point tables side by side) feeding a Sum
 SPECIFICATION Spec
 CONSTANTS
-  Kinds = {"Sum", "FixedPartition", "Muskingum"}
+  Kinds = {"Sum", "RatingCurvePartition"}
   MaxModels = 2
   MaxGen = 2
   MaxPerGen = 2
   MaxLinks = 2
-  T = 3
+  T = 2
   Emit = TRUE
 INVARIANTS LinkOrderIrrelevant SelectionLocal
 CHECK_DEADLOCK FALSE
